@@ -61,7 +61,9 @@ def plan(job: dict) -> list[dict]:
     for prob in job["problems"]:
         text = prob["assignment"]
         try:
-            fcs = sweep.format_choices(text, rng, prob["cap"])
+            fcs = sweep.format_choices(text, rng, 64 if prob.get("prefer_sparse") else prob["cap"])
+            if prob.get("prefer_sparse"):  # most compressed first (the co-iteration lattice is largest there)
+                fcs = sorted(fcs, key=lambda fm: -sum(f.count("s") for f in fm.values()))[: prob["cap"]]
             if prob.get("cycles", True):
                 for fm in three_cycle_formats(text, rng):
                     if fm not in fcs:
@@ -73,7 +75,9 @@ def plan(job: dict) -> list[dict]:
                           "tag": prob.get("tag")})
             continue
         for fm in fcs:
-            szs = sweep.index_sizes_choices(text, rng, prob["nsizes"])
+            szs = sweep.index_sizes_choices(text, rng, prob["nsizes"], sizes=tuple(prob.get("sizes_set", (0, 1, 2, 3))))
+            if prob.get("sizes_set"):
+                szs = szs[1:] + szs[:1]   # the all-2 default goes last
             for sizes in szs:
                 for _ in range(prob["ninputs"]):
                     pattern = PATTERN_CYCLE[next(counter) % len(PATTERN_CYCLE)]
